@@ -621,7 +621,7 @@ func init() {
 		Name:  "EFF-backptr",
 		Doc:   "every SearchParams stored into Url.searchParams of object o has its url back-pointer referring to o and only o",
 		Props: []string{"C12", "C13"},
-		Floor: 3,
+		Floor: 2,
 		Run: func(c *Ctx, s *core.Sink) {
 			e := BuildEff(c)
 			urlT := c.P.Type("url", "Url")
